@@ -10,9 +10,10 @@ except ImportError:      # replays run under the repository's interpreter, witho
 from pyvc.api import (Module, Interface, Method, Iface, Inst, Int, Nat, Pos, Bool, Str, Opt, OneOf, Const, Union,
                       ListOf, MListOf, IterOf, FixedList, Any_, Custom, InPlace, InPlaceBy, new_opaque, assume_pred)
 from pyvc.values import SStr, SList
-from contracts.common import implies, iff, forall_range, exists_range, prefix_join, join_of, peek, is_find, is_opaque
+from contracts.common import (implies, iff, forall_range, exists_range, prefix_join, join_of, peek, is_find, is_opaque,
+                              items_of)
 from contracts import text_spec
-from contracts.text_spec import NL, is_line, is_split_nl, split_nl, lines_of, nlines
+from contracts.text_spec import NL, is_line, is_split_nl, split_nl, lines_of, nlines, line_body
 from contracts.C14_text_value import SSCI, SSI, SSC, SS, PathI, file_text, txt_of, ss_txt, freeze_events
 
 from exactly_lib.type_val_prims.matcher.matching_result import MatchingResult
@@ -42,32 +43,52 @@ class ReplacerFnI(Interface):
     methods = {'__call__': Method(model=lambda interp, self, args, kwargs: SStr(_sub_fn()(args[0]._pv_index[0])))}
 
 
-def _setup_subs(interp, args, ghosts):
-    lines = args['lines']
-    return {'subs': SList(lines.xs.length, lambda interp2, idx: SStr(_sub_fn()(idx)), 'subs')}
+def replacements(replacer, lines):
+    """what the replacer makes of each line"""
+    return [replacer(line) for line in lines]
 
+
+def _m_replacements(interp, args, kwargs):
+    """proof level: ONE list per (replacer, lines), whose j-th element is replacer(lines[j]) -- evaluated only
+    where the proof looks at an element"""
+    from pyvc import models as _m, seqs
+    replacer, lines = args
+    base = seqs.parts_of(lines)
+    xs = base[0][1] if len(base) == 1 and base[0][0] == 'base' else lines
+    cache = xs.aux.setdefault('replacements', {})
+    ys = cache.get(id(replacer))
+    if ys is None:
+        ys = SList(xs.length, lambda interp2, idx: interp2.call(replacer, [_m.slist_elem(interp2, xs, idx)], {}),
+                   xs.uid + '.replaced')
+        cache[id(replacer)] = ys
+        cache[('keep', id(replacer))] = replacer
+    return ys
+
+
+M.model(replacements, _m_replacements)
 
 M.contract(P_REPL + ':_lines_iterator_from_replacements',
            params=dict(replacer=Iface(ReplacerFnI), lines=IterOf(Iface(AnyLineI))),
-           setup=_setup_subs, yields=ListOf(Str),
+           old=lambda replacer, lines: replacements(replacer, peek(lines)),
+           yields=ListOf(Str), event='re-split',
            ensures={
                'yields split_nl of the concatenated replacements':
-                   lambda yielded, subs: is_split_nl(yielded, join_of(subs)),
+                   lambda yielded, old: is_split_nl(yielded, join_of(old)),
            },
            raises_only=())
 
 
-def _inv_outer(_i, yielded, segments, subs):
-    return join_of(yielded) + join_of(segments) == prefix_join(subs, _i) \
+def _inv_outer(_i, yielded, segments, old):
+    return join_of(yielded) + join_of(segments) == prefix_join(old, _i) \
         and NL not in join_of(segments) \
         and forall_range(0, len(yielded), lambda j: is_line(yielded[j]) and yielded[j].endswith(NL))
 
 
-def _inv_inner(_i0, yielded, segments, subs, sub_l, nli):
+def _inv_inner(_i0, yielded, segments, old, sub_l, nli):
     # (the quantifier-free conjuncts first: what they establish about the pieces of sub_l is then known
     # to the path solver when the body slices sub_l)
     return is_find(nli, sub_l, NL) \
-        and join_of(yielded) + join_of(segments) + sub_l == prefix_join(subs, _i0 + 1) \
+        and join_of(yielded) + join_of(segments) + sub_l == prefix_join(old, _i0 + 1) \
         and NL not in join_of(segments) \
         and forall_range(0, len(yielded), lambda j: is_line(yielded[j]) and yielded[j].endswith(NL))
 
@@ -255,3 +276,410 @@ M.contract(P_NUM_LINES + ':_PropertyGetter.get_from',
 M.loop(P_EMPTY + ':EmptinessStringMatcher._first_line', 0, invariant=lambda _i: _i == 0, modifies={'line': 'local'})
 M.loop(P_NUM_LINES + ':_PropertyGetter.get_from', 0, invariant=lambda _i, ret_val: ret_val == _i,
        modifies=dict(ret_val=Int, _='local'))
+
+
+# ------------------------------------------------------------------------------ matches [-full] REGEX
+# (the semantics of Python's `re` is assumed: a compiled pattern is known by its ghost denotations)
+
+from exactly_lib.impls.types.matcher.impls import matches_regex, quantifier_matchers                 # noqa: E402
+from exactly_lib.impls.types.string_matcher.impl import matches as matches_mod, on_transformed, line_matchers   # noqa: E402
+from exactly_lib.impls.types.string_transformer.impl import sequence as st_sequence                 # noqa: E402
+from exactly_lib.impls.types.string_transformer.impl.replace import impl as replace_impl            # noqa: E402
+from exactly_lib.impls.types.line_matcher import model_construction                                  # noqa: E402
+from exactly_lib.type_val_prims.matcher.matcher_base_class import MatcherWTrace                      # noqa: E402
+from exactly_lib.type_val_prims.string_transformer import StringTransformer                          # noqa: E402
+from exactly_lib.util.logic_types import Quantifier                                                  # noqa: E402
+
+
+def _re_result(denotation):
+    def model(interp, self, args, kwargs):
+        found = interp.reg.call_opaque(interp, self, denotation, [args[0]], {})
+        from pyvc.values import SOpt, to_z3
+        from pyvc.api import OpaqueVal
+        return SOpt(z3.Not(to_z3(found)) if not isinstance(found, bool) else z3.BoolVal(not found),
+                    OpaqueVal(interp.st.fresh_name('match-object')))
+
+    return model
+
+
+class PatternI(Interface):
+    """re.Pattern[str].  SEARCH(s) / FULL(s): whether the pattern is found in / matches all of s;
+    SUB(repl, s): s with every non-overlapping match replaced.  (Python `re` semantics: assumed.)"""
+    methods = {
+        'SEARCH': Method(returns=Bool, pure=True), 'FULL': Method(returns=Bool, pure=True),
+        'SUB': Method(returns=Str, pure=True),
+        'search': Method(model=_re_result('SEARCH')), 'fullmatch': Method(model=_re_result('FULL')),
+        'sub': Method(model=lambda interp, self, args, kwargs: interp.reg.call_opaque(interp, self, 'SUB', list(args), {})),
+    }
+
+
+P_MRE = 'exactly_lib.impls.types.matcher.impls.matches_regex'
+MATCHES_REGEX = Inst(matches_regex.MatchesRegex, _is_full_match=Bool, _pattern=Iface(PatternI), _pattern_renderer=Any_,
+                     _renderer_of_expected=Any_, _structure_renderer=Any_)
+
+M.contract(P_MRE + ':MatchesRegex.matches_w_trace', params=dict(self=MATCHES_REGEX, model=Str),
+           ensures={'search, or full match with -full': lambda self, model, result:
+                    result.value == (self._pattern.FULL(model) if self._is_full_match else self._pattern.SEARCH(model))},
+           raises_only=())
+
+M.contract('exactly_lib.impls.types.string_matcher.impl.matches:_PropertyGetter.get_from',
+           params=dict(self=Inst(matches_mod._PropertyGetter, _structure_renderer=Any_), model=SS), returns=Str,
+           ensures={'the whole text': lambda model, result: result == model.txt}, raises_only=())
+
+
+# ------------------------------------------------------------------------------ matcher of a property of the text
+# (`num-lines INTEGER-MATCHER`, `matches REGEX`): the verdict is that of the matcher on the property
+
+def _value_of(denote):
+    def model(interp, self, args, kwargs):
+        r = object.__new__(MatchingResult)
+        r._value = denote(interp, self, args)
+        r._trace = Any_.make(interp, 'trace')
+        return r
+
+    return model
+
+
+class PropMatcherI(Interface):
+    """a matcher of an integer or a string: its verdict is a function of the value"""
+    target_class = MatcherWTrace
+    methods = {'D_int': Method(returns=Bool, pure=True), 'D_str': Method(returns=Bool, pure=True),
+               'matches_w_trace': Method(model=_value_of(
+                   lambda interp, self, args: interp.reg.call_opaque(
+                       interp, self, 'D_str' if isinstance(args[0], (str, SStr)) else 'D_int', [args[0]], {}))),
+               'structure': Method(returns=Any_)}
+
+
+class PropGetterI(Interface):
+    methods = {'P_int': Method(returns=Int, pure=True),
+               'get_from': Method(model=lambda interp, self, args, kwargs:
+                                  interp.reg.call_opaque(interp, self, 'P_int',
+                                                         [interp.reg.opaque_getattr(interp, args[0], 'txt')], {})),
+               'structure': Method(returns=Any_)}
+
+
+class DescriberI(Interface):
+    methods = {'trace': Method(returns=Any_), 'structure': Method(returns=Any_)}
+
+
+from exactly_lib.impls.types.matcher import property_matcher                                       # noqa: E402
+
+M.contract('exactly_lib.impls.types.matcher.property_matcher:PropertyMatcher.matches_w_trace',
+           params=dict(self=Inst(property_matcher.PropertyMatcher, _matcher=Iface(PropMatcherI),
+                                 _property_getter=Iface(PropGetterI), _describer=Iface(DescriberI), _structure=Any_),
+                       model=SS),
+           ensures={'the verdict of the matcher on the property of the text': lambda self, model, result:
+                    result.value == self._matcher.D_int(self._property_getter.P_int(model.txt))},
+           raises_only=())
+
+
+# ------------------------------------------------------------------------------ -transformed-by, | (sequence)
+
+class TransformerI(Interface):
+    """a string transformer: the text of the result is G(text of the model) (C14: transformed sources)"""
+    target_class = StringTransformer
+    methods = {'G': Method(returns=Str, pure=True),
+               'transform': Method(model=lambda interp, self, args, kwargs: _transformed(interp, self, args[0])),
+               '__call__': Method(model=lambda interp, self, args, kwargs: _transformed(interp, self, args[0])),
+               'structure': Method(returns=Any_)}
+    attrs = {'is_identity_transformer': Bool}
+
+
+def _transformed(interp, f, model):
+    out = new_opaque(interp, SSI, 'transformed')
+    out._pv_attrs['txt'] = interp.reg.call_opaque(interp, f, 'G', [interp.reg.opaque_getattr(interp, model, 'txt')], {})
+    return out
+
+
+class TextMatcherI(Interface):
+    """a string matcher: its verdict is a function of the text of its model (it can observe nothing else: I_SSC)"""
+    target_class = MatcherWTrace
+    methods = {'D': Method(returns=Bool, pure=True),
+               'matches_w_trace': Method(model=_value_of(
+                   lambda interp, self, args: interp.reg.call_opaque(
+                       interp, self, 'D', [interp.reg.opaque_getattr(interp, args[0], 'txt')], {}))),
+               'structure': Method(returns=Any_)}
+
+
+M.contract('exactly_lib.impls.types.string_matcher.impl.on_transformed:StringMatcherWithTransformation.matches_w_trace',
+           params=dict(self=Inst(on_transformed.StringMatcherWithTransformation, _transformer=Iface(TransformerI),
+                                 _on_transformed=Iface(TextMatcherI), _transformer_detail=Any_, _structure_renderer=Any_),
+                       model=SS),
+           ensures={'the matcher applied to the transformed text': lambda self, model, result:
+                    result.value == self._on_transformed.D(self._transformer.G(model.txt))},
+           raises_only=())
+
+
+def applied(fs, k, t):
+    """the text after the first k transformations of fs have been applied to t, one after the other"""
+    for f in fs[:k]:
+        t = f.G(t)
+    return t
+
+
+def _m_applied(interp, args, kwargs):
+    from pyvc import models as _m
+    from pyvc.values import to_z3, wrap
+    fs, k, t = args
+    a = fs.aux.setdefault('applied', {})
+    tt = to_z3(t)
+    f = a.get('fn')
+    if f is None:
+        f = a['fn'] = z3.Function('applied[%s]' % fs.uid, z3.IntSort(), z3.StringSort(), z3.StringSort())
+    kk = z3.simplify(to_z3(k) if not isinstance(k, int) else z3.IntVal(k))
+    for j in (z3.simplify(kk - 1), kk):          # defining equations at the steps the proof mentions
+        key = (j.sexpr(), tt.get_id())
+        if key in a:
+            continue
+        a[key] = tt
+        interp.st._add(f(z3.IntVal(0), tt) == tt)
+        if z3.is_int_value(j) and j.as_long() < 0:
+            continue
+        guard = z3.And(j >= 0, j < fs.length)
+        if interp.st.must_hold(z3.Not(guard)):
+            continue
+        step = interp.reg.call_opaque(interp, _m.slist_elem(interp, fs, j), 'G', [wrap(f(j, tt))], {})
+        interp.st._add(z3.Implies(guard, f(j + 1, tt) == to_z3(step)))
+    return wrap(f(kk, tt))
+
+
+M.model(applied, _m_applied)
+
+M.contract('exactly_lib.impls.types.string_transformer.impl.sequence:SequenceStringTransformer.transform',
+           params=dict(self=Inst(st_sequence.SequenceStringTransformer, _transformers=Any_, _is_identity=Bool,
+                                 _non_identity_transformer_functions=ListOf(Iface(TransformerI)),
+                                 _structure_renderer=Any_),
+                       model=SS),
+           old=lambda model: model.txt,
+           ensures={'T1 | T2 | ...: the transformations applied one after the other, left to right':
+                    lambda self, old, result:
+                    result.txt == applied(self._non_identity_transformer_functions,
+                                          len(self._non_identity_transformer_functions), old)},
+           raises_only=())
+M.loop('exactly_lib.impls.types.string_transformer.impl.sequence:SequenceStringTransformer.transform', 0,
+       invariant=lambda _i, _xs, model, old: model.txt == applied(_xs, _i, old),
+       modifies=dict(model=SS, transformer='local'))
+
+
+# ------------------------------------------------------------------------------ every / any line : LINE-MATCHER
+# The elements of a text are its lines: (n, line without its new-line) for n = 1, 2, ...  A line matcher's verdict
+# is a function LM(n, text of the line).
+
+P_QM = 'exactly_lib.impls.types.matcher.impls.quantifier_matchers'
+P_MC = 'exactly_lib.impls.types.line_matcher.model_construction'
+P_LM = 'exactly_lib.impls.types.string_matcher.impl.line_matchers'
+
+LINE_ELEMENT = FixedList(Int, Str, as_tuple=True)
+
+
+class LineMatcherI(Interface):
+    target_class = MatcherWTrace
+    methods = {'LM': Method(returns=Bool, pure=True),
+               'matches_w_trace': Method(model=_value_of(
+                   lambda interp, self, args: interp.reg.call_opaque(interp, self, 'LM', [args[0][0], args[0][1]], {}))),
+               'structure': Method(returns=Any_)}
+
+
+class RendererFnI(Interface):
+    methods = {'__call__': Method(returns=Any_)}
+
+
+def _mk_quantifier(cls, quantifier):
+    conf = Inst(quantifier_matchers._ApplicationConf,
+                setup=Inst(quantifier_matchers.ElementSetup,
+                           rendering=Inst(quantifier_matchers.ElementRendering, type_name=Str,
+                                          element_matcher_syntax_info=Any_, renderer=Iface(RendererFnI)),
+                           elements_getter=Const(line_matchers._get_line_elements)),
+                predicate=Iface(LineMatcherI), tcds=Any_, environment=Any_)
+    return Inst(cls, _conf=conf, _quantifier=Const(quantifier), _name=Str, _structure_renderer=Any_)
+
+
+from exactly_lib.type_val_prims.description.trace_building import TraceBuilder                     # noqa: E402
+
+TRACE_BUILDER = Inst(TraceBuilder, _header=Str, _details=FixedList(), _children=FixedList())
+EXISTS = _mk_quantifier(quantifier_matchers.Exists, Quantifier.EXISTS)
+FOR_ALL = _mk_quantifier(quantifier_matchers.ForAll, Quantifier.ALL)
+
+
+def holds_of_line(m, txt, j):
+    """the line matcher's verdict on line number j+1 of the text"""
+    return m.LM(j + 1, line_body(text_spec.line_at(txt, j)))
+
+
+def _line_elements_of(lines, elements):
+    return len(elements) == len(lines) and forall_range(
+        0, len(lines), lambda j: elements[j][0] == j + 1 and elements[j][1] == lines[j].rstrip(NL))
+
+
+M.contract(P_MC + ':model_iter_from_file_line_iter', params=dict(lines=IterOf(Str)),
+           returns=IterOf(LINE_ELEMENT),
+           ensures={'one element per line: (n, line without its new-line), n from 1': lambda lines, result:
+                    _line_elements_of(lines.xs, items_of(result))},
+           raises_only=())
+
+M.contract(P_QM + ':Exists._matches',
+           params=dict(self=EXISTS, tb=TRACE_BUILDER, predicate=Iface(LineMatcherI), elements=IterOf(LINE_ELEMENT)),
+           returns=Inst(MatchingResult, _value=Bool, _trace=Any_),
+           modifies={'elements': InPlaceBy(_advance_iter)},
+           ensures={
+               'True iff some element matches': lambda predicate, elements, result:
+               result.value == exists_range(0, len(elements.xs),
+                                            lambda j: predicate.LM(elements.xs[j][0], elements.xs[j][1])),
+               'elements are tried in order, none after the first that matches': lambda predicate, elements, result:
+               forall_range(0, elements.pos - 1, lambda j: not predicate.LM(elements.xs[j][0], elements.xs[j][1]))
+               and implies(not result.value, elements.pos == len(elements.xs)),
+           }, raises_only=())
+M.loop(P_QM + ':Exists._matches', 0,
+       invariant=lambda _i, _xs, predicate, num_elements:
+       num_elements == _i and forall_range(0, _i, lambda j: not predicate.LM(_xs[j][0], _xs[j][1])),
+       modifies=dict(num_elements=Int, element='local', result='local'))
+
+M.contract(P_QM + ':ForAll._matches',
+           params=dict(self=FOR_ALL, tb=TRACE_BUILDER, predicate=Iface(LineMatcherI), elements=IterOf(LINE_ELEMENT)),
+           returns=Inst(MatchingResult, _value=Bool, _trace=Any_),
+           modifies={'elements': InPlaceBy(_advance_iter)},
+           ensures={
+               'True iff every element matches': lambda predicate, elements, result:
+               result.value == forall_range(0, len(elements.xs),
+                                            lambda j: predicate.LM(elements.xs[j][0], elements.xs[j][1])),
+               'elements are tried in order, none after the first that does not match':
+                   lambda predicate, elements, result:
+                   forall_range(0, elements.pos - 1, lambda j: predicate.LM(elements.xs[j][0], elements.xs[j][1]))
+                   and implies(result.value, elements.pos == len(elements.xs)),
+           }, raises_only=())
+M.loop(P_QM + ':ForAll._matches', 0,
+       invariant=lambda _i, _xs, predicate, num_elements:
+       num_elements == _i and forall_range(0, _i, lambda j: predicate.LM(_xs[j][0], _xs[j][1])),
+       modifies=dict(num_elements=Int, element='local', result='local'))
+
+M.contract(P_QM + ':_QuantifierBase.matches_w_trace', params=dict(self=Union(EXISTS, FOR_ALL), model=SS),
+           ensures={
+               'any line: True iff the line matcher holds of some line (n, text without new-line)':
+                   lambda self, model, result: implies(
+                       self._quantifier is Quantifier.EXISTS,
+                       result.value == exists_range(0, nlines(model.txt),
+                                                    lambda j: holds_of_line(self._conf.predicate, model.txt, j))),
+               'every line: True iff the line matcher holds of every line (n, text without new-line)':
+                   lambda self, model, result: implies(
+                       self._quantifier is Quantifier.ALL,
+                       result.value == forall_range(0, nlines(model.txt),
+                                                    lambda j: holds_of_line(self._conf.predicate, model.txt, j))),
+           }, raises_only=())
+
+
+# ------------------------------------------------------------------------------ replace: what is substituted where
+
+STR_REPLACER_INCL = Inst(replace_impl._StrReplacerIncludingNewLines, _regex=Iface(PatternI), _replacement=Str)
+STR_REPLACER_EXCL = Inst(replace_impl._StrReplacerExcludingNewLines, _regex=Iface(PatternI), _replacement=Str)
+
+M.contract(P_REPL + ':_StrReplacerIncludingNewLines.process', params=dict(self=STR_REPLACER_INCL, line=Str),
+           returns=Str,
+           ensures={'every match in the line, its new-line included, is replaced': lambda self, line, result:
+                    result == self._regex.SUB(self._replacement, line)},
+           raises_only=())
+
+M.contract(P_REPL + ':_StrReplacerExcludingNewLines.process', params=dict(self=STR_REPLACER_EXCL, line=Str),
+           requires=lambda line: line != '',          # lines of a text are not empty (I_SSC)
+           returns=Str,
+           ensures={'-preserve-new-lines: matches are replaced in the line without its new-line, which is kept':
+                    lambda self, line, result:
+                    result == (self._regex.SUB(self._replacement, line_body(line)) + NL if line.endswith(NL)
+                               else self._regex.SUB(self._replacement, line))},
+           raises_only=())
+
+
+class StrFnI(Interface):
+    """str_replacer: Callable[[str], str]"""
+    methods = {'R': Method(returns=Str, pure=True),
+               '__call__': Method(model=lambda interp, self, args, kwargs:
+                                  interp.reg.call_opaque(interp, self, 'R', [args[0]], {}))}
+
+
+M.contract(P_REPL + ':_ReplacerWLineMatcherSelector.process',
+           params=dict(self=Inst(replace_impl._ReplacerWLineMatcherSelector, selector=Iface(LineMatcherI),
+                                 replacer=Iface(StrFnI)),
+                       line=FixedList(Str, LINE_ELEMENT, as_tuple=True)),
+           returns=Str,
+           ensures={'-at LINE-MATCHER: replaced iff the line matcher accepts (n, text); else unchanged':
+                    lambda self, line, result:
+                    result == (self.replacer.R(line[0]) if self.selector.LM(line[1][0], line[1][1]) else line[0])},
+           raises_only=())
+
+_REPLACE_TRANSFORMER = Inst(replace_impl._ReplaceStringTransformer)
+
+M.contract(P_REPL + ':_ReplaceStringTransformer.__init__',
+           params=dict(self=_REPLACE_TRANSFORMER, lines_selector=Opt(Iface(LineMatcherI)), preserve_new_lines=Bool,
+                       compiled_regular_expression=Iface(PatternI), replacement=Str),
+           ensures={
+               'the replacer is chosen by -preserve-new-lines and is given the pattern and the replacement':
+                   lambda self, preserve_new_lines, compiled_regular_expression, replacement: _replacer_ok(
+                       _str_replacer_of(self), preserve_new_lines, compiled_regular_expression, replacement),
+               'with -at the selector decides line by line; without it every line is processed':
+                   lambda self, lines_selector:
+                   (lines_selector is None
+                    and type(self._replacer_applier) is replace_impl._ReplacerApplierWoLineMatcherSelector)
+                   or (lines_selector is not None
+                       and type(self._replacer_applier) is replace_impl._ReplacerApplierWLineMatcherSelector
+                       and self._replacer_applier._replacer.selector is lines_selector),
+           }, raises_only=())
+
+
+def _str_replacer_of(transformer):
+    a = transformer._replacer_applier
+    if type(a) is replace_impl._ReplacerApplierWoLineMatcherSelector:
+        return a._replacer
+    return a._replacer.replacer.__self__
+
+
+def _replacer_ok(r, preserve_new_lines, regex, replacement):
+    return type(r) is (replace_impl._StrReplacerExcludingNewLines if preserve_new_lines
+                       else replace_impl._StrReplacerIncludingNewLines) \
+        and r._regex is regex and r._replacement == replacement
+
+
+# --- the two appliers hand the lines and their replacer to the re-splitter (event 're-split' of its contract)
+
+def _resplit_calls(trace):
+    return [e[1] for e in trace if e[0] == 're-split']
+
+
+M.contract(P_REPL + ':_ReplacerApplierWoLineMatcherSelector.process',
+           params=dict(self=Inst(replace_impl._ReplacerApplierWoLineMatcherSelector, _replacer=STR_REPLACER_EXCL),
+                       lines=IterOf(Str)),
+           requires=lambda lines: forall_range(0, len(lines.xs), lambda j: lines.xs[j] != ''),    # lines of a text (I_SSC)
+           inline=True,
+           ensures={'every line is processed by the replacer, the result is re-split into lines':
+                    lambda self, lines, trace:
+                    len(_resplit_calls(trace)) == 1
+                    and _resplit_calls(trace)[0]['replacer'] == self._replacer.process
+                    and _resplit_calls(trace)[0]['lines'] is lines},
+           raises_only=())
+
+M.contract(P_REPL + ':_ReplacerApplierWLineMatcherSelector.process',
+           params=dict(self=Inst(replace_impl._ReplacerApplierWLineMatcherSelector,
+                                 _replacer=Inst(replace_impl._ReplacerWLineMatcherSelector,
+                                                selector=Iface(LineMatcherI), replacer=Iface(StrFnI))),
+                       lines=IterOf(Str)),
+           inline=True,
+           ensures={'every (line, (n, text)) is processed by the selecting replacer, the result is re-split':
+                    lambda self, lines, trace:
+                    len(_resplit_calls(trace)) == 1
+                    and _resplit_calls(trace)[0]['replacer'] == self._replacer.process
+                    and _line_pairs_of(lines.xs, items_of(_resplit_calls(trace)[0]['lines']))},
+           raises_only=())
+
+
+def _line_pairs_of(lines, pairs):
+    return len(pairs) == len(lines) and forall_range(
+        0, len(lines), lambda j: pairs[j][0] == lines[j] and pairs[j][1][0] == j + 1
+        and pairs[j][1][1] == lines[j].rstrip(NL))
+
+
+M.contract(P_REPL + ':_ReplaceStringTransformer._transform',
+           params=dict(self=Inst(replace_impl._ReplaceStringTransformer,
+                                 _replacer_applier=Inst(replace_impl._ReplacerApplierWoLineMatcherSelector,
+                                                        _replacer=STR_REPLACER_INCL),
+                                 _structure_renderer=Any_), lines=IterOf(Str)),
+           ensures={'the lines go to the applier': lambda self, lines, trace:
+                    len(_resplit_calls(trace)) == 1 and _resplit_calls(trace)[0]['lines'] is lines},
+           raises_only=())
